@@ -852,6 +852,14 @@ def check_identity(program, rep):
     statement needs."""
     disp = evrules.dispatcher_class(program)
     f = program.method('EventDispatcher', 'add_handler', inherited=False)
+    if getattr(program, 'identity_refs', None) and any(
+            'identity-comparing reference class' in l and f.where in l
+            for l in program.normalised):
+        rep.ok('C03.identity', f.where, 'weakref.ref subclass',
+               'handlers are filed under a reference class that compares and '
+               f'hashes by identity ({", ".join(program.identity_refs)})',
+               line=f.node.lineno)
+        return
     refs = [n for n in ast.walk(f.node) if isinstance(n, ast.Call)
             and (dotted(n.func) or '').split('.')[-1] in ('ref', 'WeakMethod')
             and (dotted(n.func) or '').startswith(('weakref.', 'ref'))]
